@@ -187,7 +187,7 @@ pub mod boundary {
 
             #[cfg(nlnetlabs_roto_verif)]
             crate::verif_api::yield_point(13);
-            let other = self.inner.0.lock().unwrap();
+            let other = other.inner.0.lock().unwrap();
 
             // SAFETY: The rawlist represents a slice of T::Transformed so
             // we can safely construct a slice from it's parts as long as we
